@@ -15,24 +15,54 @@ fn main() {
     let args: Vec<String> = std::env::args().collect();
     match args.get(1).map(|s| s.as_str()) {
         Some("gen") => {
-            let engine = args[2].as_str();
+            let engine = args[2].clone();
             let seed: u64 = args[3].parse().expect("seed");
             let thorough = args.get(4).map(|s| s == "thorough").unwrap_or(false);
-            let mut out = Vec::new();
-            match engine {
-                "pure" => gens::gen_pure(seed, thorough, &mut out),
-                "seq" => gens::gen_seq(seed, if thorough { 20_000 } else { 1_500 }, if thorough { 120 } else { 40 }, false, &mut out),
-                "seq0" => gens::gen_seq(seed, if thorough { 20_000 } else { 1_500 }, if thorough { 120 } else { 40 }, true, &mut out),
-                _ => {
-                    eprintln!("unknown engine {engine}");
-                    std::process::exit(2);
+            // The sequential generators consult a private copy of the real level (to know which
+            // ids are live); if a call into the crate does not return, the ops generated so far
+            // (ending with the hanging one) are still printed and `run` reports the TIMEOUT.
+            let out: Arc<Mutex<Vec<String>>> = Arc::new(Mutex::new(Vec::new()));
+            let done = Arc::new(AtomicUsize::new(0));
+            let (o2, d2) = (out.clone(), done.clone());
+            std::thread::Builder::new()
+                .stack_size(256 << 20)
+                .spawn(move || {
+                    let sink = gens::Sink(o2);
+                    match engine.as_str() {
+                        "pure" => gens::gen_pure(seed, thorough, &sink),
+                        "seq" => gens::gen_seq(seed, if thorough { 20_000 } else { 1_500 }, if thorough { 120 } else { 40 }, false, &sink),
+                        "seq0" => gens::gen_seq(seed, if thorough { 20_000 } else { 1_500 }, if thorough { 120 } else { 40 }, true, &sink),
+                        _ => {
+                            eprintln!("unknown engine {engine}");
+                            std::process::exit(2);
+                        }
+                    }
+                    d2.store(1, Ordering::SeqCst);
+                })
+                .unwrap();
+            let budget = std::time::Duration::from_secs(
+                std::env::var("VERIF_OP_TIMEOUT").ok().and_then(|s| s.parse().ok()).unwrap_or(10),
+            );
+            let mut last = usize::MAX;
+            let mut since = std::time::Instant::now();
+            while done.load(Ordering::SeqCst) == 0 {
+                let p = out.lock().unwrap().len();
+                if p != last {
+                    last = p;
+                    since = std::time::Instant::now();
+                } else if since.elapsed() > budget {
+                    break;
                 }
+                std::thread::sleep(std::time::Duration::from_millis(20));
             }
+            let lines = out.lock().unwrap().clone();
             let stdout = std::io::stdout();
             let mut w = std::io::BufWriter::new(stdout.lock());
-            for l in out {
+            for l in lines {
                 writeln!(w, "{l}").unwrap();
             }
+            w.flush().unwrap();
+            std::process::exit(0);
         }
         Some("run") => {
             let ops = std::fs::read_to_string(&args[2]).expect("ops file");
@@ -55,9 +85,7 @@ fn main() {
                         if !ex.op(line) {
                             ex.out.push((line.clone(), format!("harness-bad-op {line}")));
                         }
-                        if ex.out.len() >= 4096 {
-                            r2.lock().unwrap().append(&mut ex.out);
-                        }
+                        r2.lock().unwrap().append(&mut ex.out);
                     }
                     r2.lock().unwrap().append(&mut ex.out);
                     d2.store(1, Ordering::SeqCst);
